@@ -432,8 +432,9 @@ pub fn fail_injection<S: USet>(e: &mut Eng<S>, hists: usize, steps: usize) {
             tinyset::verif_rand::clear();
             #[cfg(not(feature = "rand"))]
             tinyset::verif_rand::set_seed(seed0);
-            if kind <= 6 && !S::TYPED && nalloc <= 6 && after_fail.len() as u64 == nalloc as u64 {
-                let mut l = format!("flt 0 {} {}", S::norm(v), nalloc);
+            // (typed wrappers: `Set64<T>::insert` / `extend` are `SetU64::insert` under `to_u64`; values go out encoded)
+            if kind <= 6 && nalloc <= 6 && after_fail.len() as u64 == nalloc as u64 {
+                let mut l = format!("flt 0 {} {}", S::enc(S::norm(v)), nalloc);
                 if e.mode == crate::engine::Mode::Script {
                     l.push_str(" D");
                     for d in &used_draws {
@@ -451,11 +452,11 @@ pub fn fail_injection<S: USet>(e: &mut Eng<S>, hists: usize, steps: usize) {
                 e.emit(&l);
                 e.bump(&format!("flt:requests:{}", nalloc));
             }
-            if kind == 10 && !S::TYPED && nalloc <= 6 && after_fail.len() as u64 == nalloc as u64 {
+            if kind == 10 && nalloc <= 6 && after_fail.len() as u64 == nalloc as u64 {
                 let vs: Vec<u64> = (0..ext_n).map(|k| S::norm(v.wrapping_add(k * 1000))).collect();
                 let mut l = format!("flx 0 {}", vs.len());
                 for x in &vs {
-                    l.push_str(&format!(" {}", x));
+                    l.push_str(&format!(" {}", S::enc(*x)));
                 }
                 l.push_str(&format!(" {}", nalloc));
                 if e.mode == crate::engine::Mode::Script {
